@@ -70,7 +70,7 @@ func NewViewFromGroupedRecord(ctx context.Context, flags *option.Flags, referenc
 }
 
 func (view *View) IsUpdatable() bool {
-	return view.FileInfo != nil && view.FileInfo.IsUpdatable()
+	return view.FileInfo != nil && view.FileInfo.IsUpdatable() && !view.FileInfo.IsPartOfFile()
 }
 
 func (view *View) Where(ctx context.Context, scope *ReferenceScope, clause parser.WhereClause) error {
